@@ -1073,6 +1073,130 @@ def eval_fresh(case):
     return ev
 
 
+# ---------------------------------------------------------------- ambient family
+
+_AMBIENT = r"""
+import decimal, json, sys, warnings
+warnings.filterwarnings("ignore")
+from harness.props import c09 as c9
+from harness.props import _c09_spell as S
+c9.setup()
+engine, trigger = sys.argv[1], sys.argv[2]
+E = c9.engines()[engine]
+sp = [s for s in c9.spellings(engine) if "undescribable" not in s["key"]]
+objs = []
+keys = []
+for s in sp:
+    try:
+        objs.append(S.build(s["key"]))
+        keys.append(s["key"])
+    except Exception:
+        pass
+def snap():
+    out = []
+    for o in objs:
+        r = c9.resolve(engine, o)
+        out.append(r["r"] if r["st"] == "ok" else "ST:" + r["st"])
+    return out
+def eq(a, b):
+    try:
+        return bool(a == b) and bool(b == a) and hash(a) == hash(b)
+    except Exception:
+        return None
+before = snap()
+again = snap()  # control: spellings whose resolution is not even equal to itself twice in a row (unhashable results,
+# reported by the registry family) cannot witness a dependence on the trigger
+stable = [isinstance(b, str) and isinstance(a, str) and b == a or
+          (not isinstance(b, str) and not isinstance(a, str) and type(b) is type(a) and bool(eq(b, a)))
+          for b, a in zip(before, again)]
+note = None
+try:
+    if trigger.startswith("decimal-rounding:"):
+        decimal.getcontext().rounding = getattr(decimal, trigger.split(":")[1])
+    elif trigger.startswith("decimal-prec:"):
+        decimal.getcontext().prec = int(trigger.split(":")[1])
+    elif trigger.startswith("register-subclass:"):
+        want = trigger.split(":")[1]
+        n = 0
+        for cls in sorted(E.get_registered_dtypes(), key=lambda c: (c.__module__, c.__qualname__)):
+            if want not in ("*", cls.__name__):
+                continue
+            try:
+                sub = type("UserSub" + cls.__name__, (cls,), {"__module__": "user_code", "__doc__": "user flavour"})
+                E.register_dtype(sub)
+                n += 1
+            except Exception as e:  # classes that cannot be subclassed / registered: not this family's subject
+                pass
+        note = "registered=%d" % n
+    elif trigger != "none":
+        raise SystemExit("bad trigger " + trigger)
+except SystemExit:
+    raise
+after = snap()
+changed, lost, gained = [], [], []
+for i, (b, a) in enumerate(zip(before, after)):
+    if not stable[i]:
+        continue
+    if isinstance(b, str) or isinstance(a, str):
+        if str(b) != str(a):
+            changed.append({"key": keys[i], "before": str(b)[:80], "after": str(a)[:80]})
+        continue
+    if type(b) is not type(a) or not eq(b, a):
+        changed.append({"key": keys[i], "before": type(b).__module__ + "." + type(b).__name__ + ":" + repr(b)[:60],
+                        "after": type(a).__module__ + "." + type(a).__name__ + ":" + repr(a)[:60]})
+ok = [i for i in range(len(objs)) if stable[i] and not isinstance(before[i], str) and not isinstance(after[i], str)]
+npairs = 0
+for i in ok:
+    for j in ok:
+        if i < j:
+            npairs += 1
+            eb, ea = eq(before[i], before[j]), eq(after[i], after[j])
+            if eb and not ea and len(lost) < 5:
+                lost.append({"a": keys[i], "b": keys[j]})
+            if ea and not eb and eb is not None and len(gained) < 5:
+                gained.append({"a": keys[i], "b": keys[j]})
+print("RESULT " + json.dumps({"n": sum(stable), "unstable": len(objs) - sum(stable), "pairs": npairs, "changed": changed[:8], "n_changed": len(changed),
+                              "lost": lost, "gained": gained, "note": note}, default=str))
+"""
+
+
+def enum_ambient(tier):
+    trig = ["none", "decimal-rounding:ROUND_DOWN", "decimal-rounding:ROUND_CEILING", "decimal-prec:5",
+            "register-subclass:*"]
+    for e in ENGINES:
+        for t in trig:
+            yield {"engine": e, "trigger": t}
+    if tier == "thorough":
+        # one registration at a time (attributes a change to the class whose flavour was registered)
+        for e in ENGINES:
+            for cls in sorted(engines()[e].get_registered_dtypes(), key=lambda c: (c.__module__, c.__qualname__)):
+                yield {"engine": e, "trigger": "register-subclass:" + cls.__name__}
+
+
+def eval_ambient(case):
+    """What a spelling resolves to does not depend on ambient interpreter state (the decimal context) nor on which
+    user data types were registered meanwhile: same class, equal, equally hashed, and the same pairs equivalent."""
+    ev = Eval()
+    ev.labels += ["ambient:engine=" + case["engine"], "ambient:trigger=" + case["trigger"].split(":")[0]]
+    ev.nontrivial = case["trigger"] != "none"
+    p = subprocess.run([sys.executable, "-W", "ignore", "-c", _AMBIENT, case["engine"], case["trigger"]],
+                       capture_output=True, text=True, timeout=600, env=dict(os.environ))
+    line = next((l for l in p.stdout.splitlines() if l.startswith("RESULT ")), None)
+    if line is None:
+        raise HarnessError(f"ambient subprocess produced no result rc={p.returncode}: {p.stderr[-800:]}")
+    out = json.loads(line[len("RESULT "):])
+    ev.executions = max(1, out["n"])
+    if out["n"] < 10:
+        raise HarnessError(f"ambient: only {out['n']} spellings for {case['engine']}")
+    if out["n_changed"]:
+        ev.add("resolution-depends-on-ambient-state:" + case["engine"] + ":" + case["trigger"].split(":")[0],
+               {"trigger": case["trigger"], "n_changed": out["n_changed"], "examples": out["changed"][:4], "note": out["note"]})
+    if out["lost"] or out["gained"]:
+        ev.add("equivalences-depend-on-ambient-state:" + case["engine"] + ":" + case["trigger"].split(":")[0],
+               {"trigger": case["trigger"], "lost": out["lost"][:3], "gained": out["gained"][:3]})
+    return ev
+
+
 # -------------------------------------------------------------------- families
 
 FAMILIES = [
@@ -1087,6 +1211,9 @@ FAMILIES = [
     Family("strings", eval_strings, strategy=strat_strings, n_quick=3000, n_thorough=30000, shards_quick=2,
            shards_thorough=8, setup=setup, required_labels=["string-resolves", "string-rejected"]),
     Family("fresh", eval_fresh, enumerate=enum_fresh, shards_quick=1, shards_thorough=1, exhaustive=True),
+    Family("ambient", eval_ambient, enumerate=enum_ambient, shards_quick=5, shards_thorough=16, exhaustive=True,
+           setup=setup, required_labels=["ambient:trigger=register-subclass", "ambient:trigger=decimal-rounding",
+                                         "ambient:engine=polars"]),
 ]
 
 
